@@ -344,6 +344,66 @@ func scripts() map[string]Script {
 			)
 			return st
 		},
+		// removed-redelegation-destination: a validator whose operator left long ago (unbonded, kept alive by one
+		// native delegation) receives a redelegation; the delegator then undelegates everything from it and the
+		// native delegator leaves too, so x/staking removes the validator while the redelegation entry is still
+		// pending; then the source validator is slashed for a double sign
+		"removed-redelegation-destination": func(g *Gen, c *Config) []Step {
+			c.Assets = []AssetSpec{
+				{Denom: "aaa", Weight: "0.5", WMin: "0", WMax: "10", TakeRate: "0", StartDelay: -int64(time.Hour), Mag: "1000000"},
+				{Denom: "bbb", Weight: "1", WMin: "0", WMax: "10", TakeRate: "0.001", StartDelay: -int64(time.Hour), Mag: "1000000"},
+			}
+			c.Fund = "1000000000"
+			c.UnbondingNs = int64(time.Hour)
+			c.SlashDouble = "0.5"
+			fee := "2000000stake"
+			return []Step{
+				{K: "delegate", A: 0, V: 1, Den: "aaa", Amt: "1000000"},
+				{K: "delegate", A: 1, V: 3, Den: "bbb", Amt: "500000"},
+				{K: "ndelegate", A: 4, V: 2, Amt: "2000000"},
+				blk(6*time.Second, fee), blk(6*time.Second, fee),
+				{K: "oper_exit", V: 2},
+				blk(6*time.Second, fee), blk(time.Hour, fee), blk(6*time.Second, fee), blk(6*time.Second, fee),
+				{K: "redelegate", A: 0, V: 1, W: 2, Den: "aaa", Amt: "400000"},
+				{K: "undelegate", A: 0, V: 1, Den: "aaa", Amt: "1000"},
+				blk(6*time.Second, fee),
+				{K: "undelegate", A: 0, V: 2, Den: "aaa", Amt: "bal"},
+				blk(6*time.Second, fee),
+				{K: "nundelegate", A: 4, V: 2, Amt: "2000000"},
+				blk(6*time.Second, fee), blk(6*time.Second, fee),
+				{K: "block", Block: &BlockSpec{DtNs: int64(6 * time.Second), Fees: fee, Evidence: []Evidence{{Val: 1, HeightBack: 1}}}},
+				blk(6*time.Second, fee), blk(6*time.Second, fee),
+			}
+		},
+		// two-weight-changes: positions are created before their validator has any reward index; rewards in two
+		// denoms accrue, governance changes an asset's weight (first snapshot), rewards accrue again, the weight
+		// changes again (second snapshot), rewards accrue a third time; only then the positions claim
+		"two-weight-changes": func(g *Gen, c *Config) []Step {
+			c.Assets = []AssetSpec{
+				{Denom: "aaa", Weight: "1", WMin: "0", WMax: "10", TakeRate: "0", StartDelay: -int64(time.Hour), Mag: "1000000"},
+				{Denom: "bbb", Weight: "1", WMin: "0", WMax: "10", TakeRate: "0", StartDelay: -int64(time.Hour), Mag: "1000000"},
+			}
+			c.Fund = "1000000000"
+			c.RewardDelayNs = 0
+			fee := "3000000stake,500000uusd"
+			up := func(w string) *GovSpec {
+				return &GovSpec{Signer: "auth", Denom: "aaa", Weight: w, WMin: "0", WMax: "10", Take: "0", Rate: "1"}
+			}
+			return []Step{
+				{K: "delegate", A: 0, V: 1, Den: "aaa", Amt: "5000000"},
+				{K: "delegate", A: 1, V: 1, Den: "bbb", Amt: "5000000"},
+				{K: "delegate", A: 2, V: 2, Den: "aaa", Amt: "1000000"},
+				blk(6*time.Second, fee), blk(6*time.Second, fee), blk(6*time.Second, fee),
+				{K: "gov_update", Gov: up("3")},
+				blk(6*time.Second, fee), blk(6*time.Second, fee), blk(6*time.Second, fee),
+				{K: "gov_update", Gov: up("0.5")},
+				blk(6*time.Second, fee), blk(6*time.Second, fee), blk(6*time.Second, fee),
+				{K: "claim", A: 0, V: 1, Den: "aaa"},
+				{K: "claim", A: 1, V: 1, Den: "bbb"},
+				{K: "claim", A: 2, V: 2, Den: "aaa"},
+				blk(6*time.Second, fee),
+			}
+		},
 		// drain-and-refill: two assets on the same validators, non-integer share ratios after a slash, every
 		// delegator exits one asset completely (through different validators, leaving rounding dust behind),
 		// the asset's staked total returns to zero, then it is staked again
@@ -613,10 +673,11 @@ func queueDefs() []*CheckDef {
 		},
 		{
 			Prop: "C08",
+			Scripts: []string{"removed-redelegation-destination"},
 			Runs: []ProfRun{{"queue", 64, 1200}, {"core", 32, 600}, {"extreme", 16, 300}},
 			Mons: func(r *Runner) []Monitor { return []Monitor{NewMonC08(r)} },
 			ProbeEvery: 4,
-			Required: []string{"C08.slash/", "dst-gone", "dst-shrunk", "stakefalse", "realtrue"},
+			Required: []string{"C08.slash/", "dst-gone", "dst-shrunk", "stakefalse", "realtrue", "C08.destination-validator-removed"},
 			Rule: "every real slash callback (return value observed through the verif hook: x/staking swallows it) and, on branches of every k-th visited state, the callback for every validator (including the genesis validator and validators without alliance stake) x fractions {1e-18, 0.01, 0.5, 1} must return nil without panic, leave the rebalance flag set and have applied the C06/C07 effects completely; a situation class = (fraction class, state of redelegation destinations none/intact/shrunk/gone, validator has alliance stake, pending unbondings, real/probe)",
 			Assumptions: commonAssumptions,
 		},
@@ -659,10 +720,10 @@ func valueDefs() []*CheckDef {
 	return []*CheckDef{
 		{
 			Prop: "C13",
-			Scripts: []string{"warmup-quiet"},
+			Scripts: []string{"warmup-quiet", "two-weight-changes"},
 			Runs: []ProfRun{{"noslash", 64, 1200}, {"core", 32, 600}},
 			Mons: func(r *Runner) []Monitor { return []Monitor{NewMonC13(r)} },
-			Required: []string{"C13.claim/explicit", "C13.claim/implicit-delegate", "C13.claim/implicit-undelegate", "C13.claim/implicit-redelegate", "C13.settle/delegate", "C13.settle/redelegate", "C13.not-retroactive/redelegate/existedfalse", "C13.not-retroactive/redelegate/existedtrue", "C13.not-retroactive/delegate/existedfalse", "C13.idempotent", "C13.claim/warmup"},
+			Required: []string{"C13.claim/explicit", "C13.claim/implicit-delegate", "C13.claim/implicit-undelegate", "C13.claim/implicit-redelegate", "C13.settle/delegate", "C13.settle/redelegate", "C13.not-retroactive/redelegate/existedfalse", "C13.not-retroactive/redelegate/existedtrue", "C13.not-retroactive/delegate/existedfalse", "C13.idempotent", "C13.claim/warmup", "C13.claim-across-two-snapshots"},
 			Rule: "every withdraw_rewards(module, V) event of every step is attributed from the eager pre-step snapshot to the started assets on V by weight x share of the asset and pro rata to exact position values (entitlement at receipt); every explicit or implicit claim (identified from the typed events) of a position without a value-changing event since accrual must pay its accumulated entitlement within [-1-rho, +rho]; every stake-changing step on V with rewards pending for the module (read on a branch before the step) must settle them in that step; right after a delegate/redelegate a probe claim on a branch must pay nothing, an immediate second claim pays nothing, a claim changes no staked value, pool ledger conserved; a situation class = (claim kind, receipts, reward denoms), settle kind, probe kind x position existed",
 			Assumptions: commonAssumptions,
 		},
@@ -687,7 +748,7 @@ func valueDefs() []*CheckDef {
 		},
 		{
 			Prop: "C05",
-			Scripts: []string{"validator-removed"},
+			Scripts: []string{"validator-removed", "drain-slashed", "drain-dust-a", "drain-refill"},
 			Runs: []ProfRun{{"core", 32, 600}, {"queue", 16, 300}, {"extreme", 24, 450}, {"native", 8, 150}},
 			Mons: func(r *Runner) []Monitor { return []Monitor{NewMonC12(r), NewMonC05(r)} },
 			ProbeEvery: 4,
@@ -795,7 +856,7 @@ func lateDefs() []*CheckDef {
 			Replays: 2,
 			Runs: []ProfRun{{"queue", 24, 500}, {"core", 24, 500}, {"gov", 8, 200}, {"extreme", 8, 150}},
 			Mons: func(r *Runner) []Monitor { return []Monitor{NewMonC19(r)} },
-			Required: []string{"C19.block/slashes1", "C19.block/slashes0/redels3", "matured1", "C19.replays-compared"},
+			Required: []string{"C19.block/slashes1", "C19.block/slashes0/redels3", "matured1", "C19.replays-compared", "C19.replay-with-ghost-branches", "C19.rerun-in-fresh-process"},
 			Rule: "every seeded history is executed and then replayed twice more (quick) from its explicit step list on sibling branches of the same post-genesis state within one process, one of the two replays with every step first executed on a branch that is thrown away (this block's end and the ends of two further blocks for a block step): nothing of a discarded branch may influence the real execution; after every transaction the result and an event digest, after every block the begin/end-block results, event digests and a SHA-256 of the raw dump of the alliance, bank, staking, distribution, slashing and auth stores must be identical across replays (Go randomises map iteration per loop; addresses and scheduling differ between replays); thorough additionally runs histories concurrently in separate app instances under the race detector; the static clause of the property (source scan) is out of reach of runtime monitoring and not decided; a situation class = (slashes in block, pending redelegations, pending unbondings, matured entries)",
 			Assumptions: append(append([]string{}, commonAssumptions...), "the static 'for all current and future code paths' clause of C19 (AST scan) is not decided by this technique"),
 		},
